@@ -408,3 +408,72 @@ func vfH_C10_dispatch() {
 		vfrt.Assert(rec.calls == 1 && rec.kind == "data" && bytes.Equal(rec.data, pl) && rec.endStream == (raw[4]&1 != 0), "dispatch/data-kept")
 	}
 }
+
+//vf:assume C10-deliver: one stream; the processor hands the relay HEADERS, then a DATA frame of n in {0,1,3} octets with END_STREAM; the receiver's stream and connection windows are symbolic in [0, 8]; WINDOW_UPDATEs of symbolic size 1..8 then arrive for the stream and the connection (either order)
+
+//vf:harness property=C10 nopanic reach=deliver-at-once,deliver-after-window-update,deliver-held-back
+func vfH_C10_deliver() {
+	// whenever the receiver's windows permit, every queued frame is delivered, in order, none stranded
+	off := false
+	var wire bytes.Buffer
+	r := newRelay(ClientToServer, "c", "s", nil, http2.NewFramer(&wire, nil), &off)
+	r.output = make(chan queuedFrame, 64)
+	sw, cw := vfrt.Int("stream-window"), vfrt.Int("connection-window")
+	vfrt.Assume(sw >= 0)
+	vfrt.Assume(sw <= 8)
+	vfrt.Assume(cw >= 0)
+	vfrt.Assume(cw <= 8)
+	r.initialWindowSize = uint32(sw)
+	r.connectionWindowSize = cw
+	n := []int{0, 1, 3}[vfrt.Choice("data-octets", 3)]
+	vfrt.Assert(r.header(1, []hpack.HeaderField{{Name: ":status", Value: "200"}}, false, http2.PriorityParam{}) == nil, "deliver/headers-accepted")
+	vfrt.Assert(r.data(1, make([]byte, n), true) == nil, "deliver/data-accepted")
+	drain := func() (hdrs, data int, end bool) {
+		for len(r.output) > 0 {
+			switch f := (<-r.output).(type) {
+			case *queuedHeaderFrame:
+				vfrt.Assert(data == 0, "deliver/headers-before-data")
+				hdrs++
+			case *queuedDataFrame:
+				data++
+				end = f.endStream
+				vfrt.Assert(len(f.data) == n, "deliver/data-intact")
+			}
+		}
+		return
+	}
+	h, d, end := drain()
+	vfrt.Assert(h == 1, "deliver/headers-are-not-flow-controlled")
+	if n <= sw && n <= cw {
+		vfrt.Reach("deliver-at-once")
+		vfrt.Assert(d == 1 && end, "deliver/data-fitting-both-windows-is-sent-at-once-with-end-stream")
+		return
+	}
+	vfrt.Assert(d == 0, "deliver/data-beyond-a-window-is-held-back")
+	// credit arrives
+	is, ic := vfrt.Uint32("stream-increment"), vfrt.Uint32("connection-increment")
+	vfrt.Assume(is >= 1)
+	vfrt.Assume(is <= 8)
+	vfrt.Assume(ic >= 1)
+	vfrt.Assume(ic <= 8)
+	first, second := uint32(1), uint32(0)
+	if vfrt.Choice("connection-update-first", 2) == 1 {
+		first, second = 0, 1
+	}
+	inc := func(id uint32) uint32 {
+		if id == 0 {
+			return ic
+		}
+		return is
+	}
+	r.updateWindow(&http2.WindowUpdateFrame{FrameHeader: http2.FrameHeader{StreamID: first}, Increment: inc(first)})
+	r.updateWindow(&http2.WindowUpdateFrame{FrameHeader: http2.FrameHeader{StreamID: second}, Increment: inc(second)})
+	_, d, end = drain()
+	if n <= sw+int(is) && n <= cw+int(ic) {
+		vfrt.Reach("deliver-after-window-update")
+		vfrt.Assert(d == 1 && end, "deliver/queued-data-released-as-soon-as-both-windows-permit")
+	} else {
+		vfrt.Reach("deliver-held-back")
+		vfrt.Assert(d == 0, "deliver/data-beyond-a-window-stays-queued")
+	}
+}
